@@ -82,6 +82,7 @@ class Engine:
         self._range_solver = z3.Solver()
         self._range_solver.set("timeout", SOLVER_TIMEOUT_MS)
         self._or_cache = {}
+        self._excl_cache = {}
         self.frozen = 0
         self.pending_v = False
         self.prefix_pc = None
@@ -92,6 +93,7 @@ class Engine:
         self.solver = z3.Solver()
         self.solver.set("timeout", SOLVER_TIMEOUT_MS)
         self.solver.set("random_seed", self.seed % (2**31))
+        self._ctx_ref = self.solver.ctx.ref()
         self.trace = []
         self.dec_idx = []
         self.vars = {}
@@ -107,7 +109,7 @@ class Engine:
             raise RuntimeError("duplicate symbolic variable %r" % name)
         self.vars[name] = v
         if rng is not None:
-            self.solver.add(rng)
+            self._assert(rng)
             self.ranges[name] = rng
 
     def int(self, name, lo=None, hi=None):
@@ -171,8 +173,12 @@ class Engine:
             self.exported.append(s.to_smt2())
         return r == z3.sat
 
+    def _assert(self, c):
+        # z3py's Solver.add spends most of its time coercing arguments; c is a BoolRef
+        z3.Z3_solver_assert(self._ctx_ref, self.solver.solver, c.as_ast())
+
     def _add(self, c):
-        self.solver.add(c)
+        self._assert(c)
         self.pc.append(c)
 
     def branch(self, cond):
@@ -225,8 +231,15 @@ class Engine:
             ent = ["v", [], None, True]
             self.decisions += 1
         self.trace.append(ent)
-        for t in ent[1]:
-            self._add(term != t)
+        if ent[1]:
+            # one cached conjunction per exclusion list (re-used on every replay)
+            hit = self._excl_cache.get(id(ent))
+            if hit is None or hit[0] is not ent or hit[1] != len(ent[1]):
+                hit = (ent, len(ent[1]), z3.And(*[term != t for t in ent[1]]) if len(ent[1]) > 1 else term != ent[1][0])
+                if len(self._excl_cache) > 4096:
+                    self._excl_cache.clear()
+                self._excl_cache[id(ent)] = hit
+            self._add(hit[2])
         if self.prefix_pc is None and self.pending_v and i == self.frozen:
             # this job's root is a partially explored value decision: its region is
             # "prefix and none of the values already handed out"
